@@ -534,6 +534,103 @@ func runC13(c *Ctx) {
 		c.R.Bad(rule, core.FuncName(hs), cfg, p.Pos(at.Pos()), "handshake -> "+core.FuncName(loader)+" bounds the hello read by Client.readTimeout (default 3s), not by the handshake timeout: a hello that arrives later but before HandshakeTimeout is rejected")
 	}()
 
+	// ---- C13.ctx
+	rule = "C13.ctx"
+	c.R.Rule(rule, "the handshake runs under a context derived from the caller's by context.WithTimeout(_, Options.HandshakeTimeout) only; on the way from Dial's / Connect's ctx parameter no other deadline is attached (tracing and values may be): a dial timeout or any other shorter deadline on that context would cut the wait for the server hello")
+	func() {
+		cn := p.Func(core.PkgCh, "Connect")
+		dial := p.Func(core.PkgCh, "Dial")
+		if cn == nil || dial == nil {
+			return
+		}
+		// allowed derivation chain back to the ctx parameter
+		var derived func(v ssa.Value, fn *ssa.Function, d int) (bool, string)
+		derived = func(v ssa.Value, fn *ssa.Function, d int) (bool, string) {
+			if d > 12 {
+				return false, "too deep"
+			}
+			switch x := v.(type) {
+			case *ssa.Parameter:
+				return x.Name() == "ctx", "parameter " + x.Name()
+			case *ssa.UnOp:
+				if al, ok := x.X.(*ssa.Alloc); ok {
+					for _, r := range *al.Referrers() {
+						if st, ok := r.(*ssa.Store); ok && st.Addr == al {
+							if ok, why := derived(st.Val, fn, d+1); !ok {
+								return false, why
+							}
+						}
+					}
+					return true, ""
+				}
+			case *ssa.Phi:
+				for _, e := range x.Edges {
+					if ok, why := derived(e, fn, d+1); !ok {
+						return false, why
+					}
+				}
+				return true, ""
+			case *ssa.Extract:
+				if cl, ok := x.Tuple.(*ssa.Call); ok {
+					f := core.CalleeFunc(cl)
+					if f != nil && f.Pkg() != nil && f.Pkg().Path() == "context" {
+						return false, "context." + f.Name() + " (attaches a deadline / cancellation)"
+					}
+					// tracer.Start(ctx, ...) and similar: follow the context argument
+					for _, a := range cl.Call.Args {
+						if core.IsNamed(a.Type(), "context", "Context") {
+							return derived(a, fn, d+1)
+						}
+					}
+				}
+			case *ssa.Call:
+				f := core.CalleeFunc(x)
+				if f != nil && core.IsFunc(f, "context", "WithValue") {
+					return derived(x.Call.Args[0], fn, d+1)
+				}
+				if f != nil && f.Pkg() != nil && f.Pkg().Path() == "context" {
+					return false, "context." + f.Name()
+				}
+			}
+			return false, "unrecognised derivation " + v.String()
+		}
+		// Dial -> Connect
+		for _, call := range core.Calls(dial) {
+			if f := core.CalleeFunc(call); f != nil && core.IsFunc(f, core.PkgCh, "Connect") {
+				ok, why := derived(call.Common().Args[0], dial, 0)
+				if ok {
+					c.R.Ok(rule, "ch.Dial/Connect-ctx", cfg, p.Pos(call.Pos()), "Connect receives the caller's context (possibly with tracing)")
+				} else {
+					c.R.Bad(rule, "ch.Dial/Connect-ctx", cfg, p.Pos(call.Pos()), "the context Dial hands to Connect is derived through "+why+": the handshake is cut off by that deadline instead of HandshakeTimeout")
+				}
+			}
+		}
+		// Connect -> handshake
+		for _, call := range core.FindCalls(cn, isClientMethod("handshake")) {
+			arg := call.Common().Args[1]
+			good := false
+			why := "not a context.WithTimeout result"
+			if e, ok := arg.(*ssa.Extract); ok && e.Index == 0 {
+				if cl, ok := e.Tuple.(*ssa.Call); ok {
+					if f := core.CalleeFunc(cl); f != nil && core.IsFunc(f, "context", "WithTimeout") {
+						if core.FieldOrigin(cl.Call.Args[1], 0) != "Options.HandshakeTimeout" {
+							why = "the timeout is not Options.HandshakeTimeout"
+						} else if ok, w := derived(cl.Call.Args[0], cn, 0); !ok {
+							why = "its parent context is derived through " + w
+						} else {
+							good = true
+						}
+					}
+				}
+			}
+			if good {
+				c.R.Ok(rule, "ch.Connect/handshake-ctx", cfg, p.Pos(call.Pos()), "WithTimeout(caller ctx, Options.HandshakeTimeout)")
+			} else {
+				c.R.Bad(rule, "ch.Connect/handshake-ctx", cfg, p.Pos(call.Pos()), "the handshake context is wrong: "+why)
+			}
+		}
+	}()
+
 	// ---- C13.hello
 	rule = "C13.hello"
 	c.R.Rule(rule, "the client hello announces the caller's options field by field (database, user, password, protocol version) and ServerInfo returns the decoded server hello as stored")
